@@ -91,7 +91,8 @@ type G struct {
 	stalled    bool
 	// Parks counts the times the goroutine actually had to wait (its
 	// operation was not ready when it reached it).
-	Parks int
+	Parks   int
+	unready bool // its pending operation was found not ready at some scheduling step
 }
 
 func (g *G) Done() bool { return g.done }
@@ -372,6 +373,8 @@ func (s *Sim) readySet() []*G {
 		}
 		if s.opReady(g) {
 			r = append(r, g)
+		} else {
+			g.unready = true
 		}
 	}
 	return r
@@ -490,6 +493,12 @@ func (s *Sim) pick(me *G) *G {
 // resolve finalises the operation of g once it has been chosen to run.
 func (s *Sim) resolve(g *G) {
 	o := &g.op
+	if g.unready {
+		// it had to wait: on arrival, or because the operation stopped
+		// being possible while the goroutine was pre-empted at it
+		g.unready = false
+		g.Parks++
+	}
 	switch o.kind {
 	case opLock:
 		o.mu.owner = g
@@ -601,8 +610,8 @@ func (s *Sim) step(me *G, wait bool) bool {
 	if s.AfterStep != nil {
 		s.AfterStep()
 	}
-	if wait && !s.opReady(me) {
-		me.Parks++
+	if wait {
+		me.unready = !s.opReady(me)
 	}
 	var next *G
 	stop := Quiescent
